@@ -500,7 +500,7 @@ mutual
               match ts2 with
               | a :: n :: lp :: ts3 =>
                 if a.code != cAT || n.code != cINT || lp.code != cLP then .error Gen.EXC_PARSE_BAD_MEMB_CALL_S
-                else if natOfDigits 10 n.text ≥ 2 ^ 64 then .error eForeign
+                else if natOfDigits 10 n.text ≥ 2 ^ 32 then .error Gen.EXC_PARSE_OUT_OF_INDICE   -- repo 7b31e38: beyond UINT_MAX (std::out_of_range of std::stoul included) is a parse error; the `% 2 ^ 32` below is the identity
                 else do
                   let (x, ts4) ← pLevel f 9 ts3
                   match ts4 with
@@ -531,7 +531,7 @@ mutual
           | [] => .error eEOF
           | n :: ts2 =>
             if n.code != cINT then .error Gen.EXC_PARSE_INV_EXPRESSION
-            else if natOfDigits 10 n.text ≥ 2 ^ 64 then .error eForeign        -- std::stoul throws std::out_of_range
+            else if natOfDigits 10 n.text ≥ 2 ^ 32 then .error Gen.EXC_PARSE_OUT_OF_INDICE   -- repo 7b31e38: beyond UINT_MAX (std::out_of_range of std::stoul included) is a parse error; the `% 2 ^ 32` below is the identity
             else pMember f (.item e (natOfDigits 10 n.text % 2 ^ 32)) ts2
         else pure (e, ts)
 end
